@@ -15,6 +15,12 @@ func VerifFunctionEnv(f starlark.Callable) (starlark.Value, error) { return func
 
 // VerifEnvPickler / VerifEnvUnpickler are the host (un)picklers used for fingerprints.
 var VerifEnvPickler = envPickler
+
+// VerifNewEnvPickler returns the per-encoding pickler dawn uses for fingerprints.
+func VerifNewEnvPickler() func(x starlark.Value) (module, name string, args starlark.Tuple, err error) {
+	return newEnvPickler()
+}
+
 var VerifEnvUnpickler = envUnpickler
 
 // VerifTargetFunction returns the Starlark callable of a function target (nil otherwise).
